@@ -753,7 +753,7 @@ func runC31AddSub(c c31Case, r *ev.Rec) error {
 		}
 	}); p != nil {
 		if leadingEmptySpan(a0) {
-			return ev.FailSig("add-into-receiver-with-leading-empty-span", "%s panicked: %v\n a %v spans %v %v\n b %v", c.Op, p, a0, a0.PositiveSpans, a0.NegativeSpans, b0)
+			return ev.Failf("%s panicked (receiver with an empty first span): %v\n a %v spans %v %v\n b %v", c.Op, p, a0, a0.PositiveSpans, a0.NegativeSpans, b0)
 		}
 		return ev.Failf("%s panicked: %v\n a %v spans %v %v\n b %v spans %v %v", c.Op, p, a0, a0.PositiveSpans, a0.NegativeSpans, b0, b0.PositiveSpans, b0.NegativeSpans)
 	}
@@ -789,10 +789,6 @@ func runC31AddSub(c c31Case, r *ev.Rec) error {
 		}
 	}
 	if d := cmpModel(want, got, mass, 1e-12); d != "" {
-		if leadingEmptySpan(a0) {
-			r.Class("known:leading-empty-span")
-			return ev.FailSig("add-into-receiver-with-leading-empty-span", "%s: %s\n a %v spans %v %v\n b %v\n result %v", c.Op, d, a0, a0.PositiveSpans, a0.NegativeSpans, b0, res)
-		}
 		if !ma.custom && !onSchemaBoundary(want.zt, want.schema) {
 			return ev.FailSig("zero-threshold-off-result-schema-boundary", "%s: %s\n a %v\n b %v\n result %v", c.Op, d, a0, b0, res)
 		}
@@ -821,7 +817,7 @@ func runC31Kahan(c c31Case, r *ev.Rec) error {
 	want := modelOf(h)
 	mass := want.mass()
 	var comp *histogram.FloatHistogram
-	nontrivial, leading, negRestart, offBoundary := false, false, false, false
+	nontrivial, leading, offBoundary := false, false, false
 	sumExact := bf(h.Sum)
 	sumAbs := bf(math.Abs(h.Sum))
 	for i := 1; i < len(c.Hs); i++ {
@@ -837,7 +833,7 @@ func runC31Kahan(c c31Case, r *ev.Rec) error {
 		var err error
 		if p := catchPanic(func() { comp, _, _, err = h.KahanAdd(o, comp) }); p != nil {
 			if leading {
-				return ev.FailSig("add-into-receiver-with-leading-empty-span", "KahanAdd panicked at operand %d: %v\n receiver spans %v %v", i, p, h.PositiveSpans, h.NegativeSpans)
+				return ev.Failf("KahanAdd panicked at operand %d (receiver with an empty first span): %v\n receiver spans %v %v", i, p, h.PositiveSpans, h.NegativeSpans)
 			}
 			return ev.Failf("KahanAdd panicked at operand %d: %v\n receiver %v spans %v %v\n operand %v", i, p, h, h.PositiveSpans, h.NegativeSpans, o0)
 		}
@@ -855,7 +851,7 @@ func runC31Kahan(c c31Case, r *ev.Rec) error {
 				return ev.Failf("KahanAdd step %d: zero threshold %g below an operand's (%g, %g)", i, h.ZeroThreshold, want.zt, mo.zt)
 			}
 			if _, nr := predictThreshold(want, mo); nr {
-				negRestart = true
+				r.Class("kahan-negative-bucket-restart")
 			}
 			want = combineT(want, mo, +1, h.ZeroThreshold)
 			if !onSchemaBoundary(want.zt, want.schema) {
@@ -893,14 +889,6 @@ func runC31Kahan(c c31Case, r *ev.Rec) error {
 		r.Class("kahan-mixed-magnitudes")
 	}
 	if d := cmpModel(want, got, mass, 1e-25); d != "" {
-		if leading {
-			return ev.FailSig("add-into-receiver-with-leading-empty-span", "KahanAdd chain (%d operands): %s\n result %v\n comp %v", len(c.Hs), d, h, comp)
-		}
-		if negRestart && len(d) > 10 && d[:10] == "zero count" {
-			// zeroCountForLargerThreshold restarts ("continue outer") when the threshold lands in a
-			// populated negative bucket, without resetting the compensation it accumulated
-			return ev.FailSig("kahan-zero-compensation-double-counted-on-negative-bucket-restart", "KahanAdd chain (%d operands): %s\n result %v\n comp %v", len(c.Hs), d, h, comp)
-		}
 		if !want.custom && offBoundary {
 			return ev.FailSig("zero-threshold-off-result-schema-boundary", "KahanAdd chain (%d operands): sum + compensation is not the exact sum: %s\n result %v\n comp %v", len(c.Hs), d, h, comp)
 		}
